@@ -357,6 +357,12 @@ func (c *Conversation) processEncryptedSig(encryptedSig []byte, theirMAC []byte,
 		return err
 	}
 
+	if keyID == 0 {
+		// key ids start at 1; a session with peer key id 0 could never carry a message
+		c.theirKey = previousTheirKey
+		return errCorruptEncryptedSignature
+	}
+
 	c.ake.keys.theirKeyID = keyID
 
 	return nil
